@@ -617,3 +617,5 @@ def run(L, tier):
     L.stage(r3_ticks, L, repo)
     L.stage(r5_who_may_call, L, repo, tier)
     L.stage(r6_list_identity, L, repo)
+    from pyutil import instance_state
+    L.stage(instance_state, L, repo, "C02.R7", "trx_list", "TRXList", "each transceiver list is its own list")
